@@ -187,7 +187,7 @@ Proof. exact known13_D10_half_bound_shape. Qed.
 Print Assumptions C13_known_D10_half_bound_shape.
 
 Example C13_known_families :
-  length known13_D10_bound = 40 /\ length known13_D10_half_bound = 50 /\ known13_unclassified = [] /\
+  length known13_D10_bound = 46 /\ length known13_D10_half_bound = 50 /\ known13_unclassified = [] /\
   known13 = (known13_D10_bound ++ known13_D10_half_bound)%list.
 Proof. vm_compute. repeat split. Qed.
 
@@ -200,9 +200,9 @@ Proof. exact fault_menu_defined. Qed.
 Print Assumptions C13_start_worlds_defined.
 
 Example C13_menu_size :
-  length fault_menu = 77 /\
-  fold_right Nat.add 0 fault_sites = 512 /\             (* fault sites; each in two modes *)
-  length known13 = 90.
+  length fault_menu = 83 /\
+  fold_right Nat.add 0 fault_sites = 582 /\             (* fault sites; each in two modes *)
+  length known13 = 96.
 Proof. vm_compute. repeat split. Qed.
 
 (* the menu as text (coq/menus13.json) parses to the menu of the theorem *)
